@@ -75,6 +75,16 @@ CLAIMED['C12'] = ('Stats, Gen_C12',
     'logged observation (float reference computed by the harness).',
     'DESIGN.md 3.2, 4 C12')
 
+CLAIMED['C08'] = ('Gates, Gen_C08',
+    'TLA+ predicates of start_end / high_low / axis-aligned ellipse over integer events; environment actions enumerate '
+    'events, containers, channel forms and parameters; every scenario executed with full and short output',
+    'Exhaustive over the enumerated parameter grids: the mask must equal the specified predicate (or the call must be '
+    'refused), gated data must equal input[mask] with unchanged metadata, and the short form the full form. Ellipse at a '
+    'general angle / in log space is a logged observation against an independent extended-precision evaluation.',
+    'Trusted: TLC, value parser; float exactness of the ellipse form for power-of-two semi-axes; plain numpy masking of '
+    'the underlying buffer as the meaning of input[mask].',
+    'DESIGN.md 3.2, 4 C08')
+
 NOT_APPLICABLE = {
     'C09': 'continuum numerics only (L-BFGS-B recovery of real parameters, real-analytic identities of closures): no '
            'state, history or case analysis for a TLA+ specification to enumerate; discrete fragment (Fit refuses <3 '
